@@ -1,6 +1,6 @@
 (* C07 -- property theorems only.  Proofs live in C07/Proofs*.v. *)
 From Coq Require Import NArith List Bool Arith.
-From DV Require Import Base.Outcome Base.Bytes C07.Gen C07.Model C07.Proofs C07.Proofs2 C07.Proofs3 C07.Proofs4 C07.Proofs5 C07.Proofs6 C07.Proofs7 C07.Proofs8.
+From DV Require Import Base.Outcome Base.Bytes C07.Gen C07.Model C07.Proofs C07.Proofs2 C07.Proofs3 C07.Proofs4 C07.Proofs5 C07.Proofs6 C07.Proofs7 C07.Proofs8 C07.Proofs9 C07.Proofs10.
 Import ListNotations.
 Local Open Scope N_scope.
 
@@ -429,3 +429,66 @@ Theorem C07_reader_no_panic_now :
   else True.
 Proof. exact reader_no_panic_now. Qed.
 Print Assumptions C07_reader_no_panic_now.
+
+Theorem C07_limits_symbols :
+  ascii_lo = 32 /\ ascii_hi = 126 /\ ascii_esc_lo = 32 /\ ascii_esc_hi = 126 /\
+  char_esc_lo = 32 /\ char_esc_hi_excl = 127 /\ ascii_bound = 128 /\
+  asc_lo = 33 /\ asc_hi = 127 /\ asc_q_end = 34 /\
+  rtype_prefix = [84; 89; 80; 69] /\ class_prefix = [67; 76; 65; 83; 83].
+Proof. exact limits_symbols. Qed.
+Print Assumptions C07_limits_symbols.
+
+Theorem C07_schema_mnemonics_all :
+  map (from_mnemonic rtype_table)
+    [[77;68]; [77;70]; [77;66]; [77;71]; [77;82]; [77;73;78;70;79]; [82;80]; [68;78;65;77;69];
+     [83;83;72;70;80]; [84;76;83;65]; [79;80;69;78;80;71;80;75;69;89]]
+  = map Some [3; 4; 7; 8; 9; 14; 17; 39; 44; 52; 61]
+  /\ map (from_mnemonic class_table) [[73;78]; [67;72]; [72;83]; [78;79;78;69]; [42]]
+    = map Some [1; 3; 4; 254; 255].
+Proof. exact schema_mnemonics_all. Qed.
+Print Assumptions C07_schema_mnemonics_all.
+
+Theorem C07_string_quote_dropped : string_drops_quote = true.
+Proof. exact string_quote_dropped. Qed.
+Print Assumptions C07_string_quote_dropped.
+
+Theorem C07_reader_no_panic_all : forall file,
+  match snd (read_file file) with EPanic _ => False | _ => True end.
+Proof. exact reader_no_panic_all. Qed.
+Print Assumptions C07_reader_no_panic_all.
+
+Theorem C07_layout_whole_file_gen : forall pre r1 r2 its1 p1,
+  delim_head r1 -> delim_head r2 ->
+  (forall its e, Lex r1 p1 its e -> Lex r2 p1 its e) ->
+  Reach (pre ++ r1) 0 its1 r1 p1 ->
+  items_of (pre ++ r1) = items_of (pre ++ r2).
+Proof. exact layout_whole_file_gen. Qed.
+Print Assumptions C07_layout_whole_file_gen.
+
+Theorem C07_layout_parens_whole_file : forall pre m post its1 its2 p1,
+  delim_head m ->
+  Reach (pre ++ m ++ ni_newline :: post) 0 its1 (m ++ ni_newline :: post) p1 ->
+  Reach (m ++ ni_newline :: post) p1 its2 (ni_newline :: post) p1 -> NoLF its2 ->
+  items_of (pre ++ m ++ ni_newline :: post)
+  = items_of (pre ++ ni_open :: m ++ ni_close :: ni_newline :: post).
+Proof. exact layout_parens_whole_file. Qed.
+Print Assumptions C07_layout_parens_whole_file.
+
+Theorem C07_layout_newline_in_group_whole_file : forall pre ws ws1 ws2 t its1 p,
+  Forall (fun c => is_space c = true) ws -> ws <> [] ->
+  Forall (fun c => is_space c = true) ws1 -> ws1 <> [] ->
+  Forall (fun c => is_space c = true) ws2 ->
+  Reach (pre ++ ws ++ t) 0 its1 (ws ++ t) (S p) ->
+  items_of (pre ++ ws ++ t) = items_of (pre ++ ws1 ++ ni_newline :: ws2 ++ t).
+Proof. exact layout_newline_in_group_whole_file. Qed.
+Print Assumptions C07_layout_newline_in_group_whole_file.
+
+Theorem C07_scan_entry_consumes : forall zs s x zs' s', PInv s -> is_token (scat s) = false ->
+  scan_entry zs s = Ok (x, zs', s') -> x = SEof \/ (rem s' < rem s)%nat.
+Proof. exact scan_entry_consumes. Qed.
+Print Assumptions C07_scan_entry_consumes.
+
+Theorem C07_reader_total : forall file,
+  match snd (read_file file) with EEof | EErr _ => True | _ => False end.
+Proof. exact reader_total. Qed.
+Print Assumptions C07_reader_total.
